@@ -28,16 +28,24 @@ type orderLog struct {
 	ev []orderEv
 }
 type orderEv struct {
-	set bool
-	v   int
+	set  bool
+	read bool // EstimatedLimit() read through the logging limit
+	v    int
 }
 
 type loggingLimit struct {
-	inner core.Limit
-	log   *orderLog
+	inner    core.Limit
+	log      *orderLog
+	logReads bool
 }
 
-func (l *loggingLimit) EstimatedLimit() int                       { return l.inner.EstimatedLimit() }
+func (l *loggingLimit) EstimatedLimit() int {
+	v := l.inner.EstimatedLimit()
+	if l.logReads {
+		l.log.ev = append(l.log.ev, orderEv{read: true, v: v})
+	}
+	return v
+}
 func (l *loggingLimit) NotifyOnChange(c core.LimitChangeListener) { l.inner.NotifyOnChange(c) }
 func (l *loggingLimit) OnSample(st int64, rtt int64, f int, d bool) {
 	l.inner.OnSample(st, rtt, f, d)
@@ -60,7 +68,7 @@ func (p *loggingStrategy) SetLimit(v int) {
 func runC05(r *Run) {
 	t := r.T
 	kind := []string{"simple", "precise", "lookup", "predicate"}[t.Intn(4, "strategy")]
-	mode := t.Pick([]int{6, 2, 2, 2}, "limit-kind") // script, aimd, vegas, gradient2
+	mode := t.Pick([]int{6, 2, 2, 2, 3}, "limit-kind") // script, aimd, vegas, gradient2, settable (changed from outside)
 	initial := 1 + t.Intn(40, "initial")
 	stratInit := 1 + t.Intn(40, "strategy-initial")
 	reg := &RecRegistry{}
@@ -99,6 +107,7 @@ func runC05(r *Run) {
 	}
 	var lim core.Limit
 	var script *scriptLimit
+	var settable *limit.SettableLimit
 	switch mode {
 	case 0:
 		script = &scriptLimit{cur: initial}
@@ -113,9 +122,12 @@ func runC05(r *Run) {
 		lim = limit.NewDefaultVegasLimitWithLimit("vegas", initial, nopLogger{}, nil)
 	case 3:
 		lim, _ = limit.NewGradient2Limit("g2", initial, 200, 1, func(int) int { return 4 }, 0.5, 10, nopLogger{}, nil)
+	case 4:
+		settable = limit.NewSettableLimit("settable", initial, nil)
+		lim = settable
 	}
 	olog := &orderLog{}
-	ll := &loggingLimit{inner: lim, log: olog}
+	ll := &loggingLimit{inner: lim, log: olog, logReads: true}
 	ls := &loggingStrategy{inner: strat, log: olog}
 	r.Mixf("C05 strategy=%s(limit %d) limit-kind=%d initial=%d fractions=%v/32 traj=%v", kind, stratInit, mode, initial, ks, func() []int {
 		if script != nil {
@@ -264,6 +276,24 @@ func runC05(r *Run) {
 			}
 		}))
 	}
+	if settable != nil {
+		nSet := 1 + t.Intn(5, "external-sets")
+		var vals []int
+		var waits []time.Duration
+		for i := 0; i < nSet; i++ {
+			vals = append(vals, []int{1, 2, 4, 9, 17, 33, 0, initial}[t.Intn(8, "external-set-v")])
+			waits = append(waits, time.Duration(t.Intn(8, "external-set-wait"))*time.Nanosecond)
+		}
+		r.Mixf("  settable limit changed from outside: %v after %v", vals, waits)
+		tasks = append(tasks, s.Go("external-setter", func(tk *Task) {
+			for i, v := range vals {
+				tk.Sleep(waits[i])
+				tk.Begin("Limit.SetLimit", v)
+				settable.SetLimit(v)
+				tk.End(nil)
+			}
+		}))
+	}
 	if addLater {
 		tasks = append(tasks, s.Go("partition-adder", func(tk *Task) {
 			tk.Sleep(addAfter)
@@ -284,6 +314,9 @@ func runC05(r *Run) {
 				return
 			}
 		}
+		if settable != nil {
+			return // the estimate moves between windows by design; only completed updates are checked (event log below)
+		}
 		check("stable point at t=" + fmtDur(s.Now()))
 	}
 	s.Run()
@@ -291,27 +324,47 @@ func runC05(r *Run) {
 	if s.Failed() != nil {
 		return
 	}
-	// sequence check: OnSample, SetLimit(est) strictly alternate
+	// completed updates: after every OnSample of the algorithm and before the next one, the strategy must
+	// have been given the estimate the limiter read after that sample - or already enforce it
 	changes := 0
 	last := -1 << 30
-	for i := preEv; i < len(olog.ev); i++ {
+	enforced := -1 << 30
+	for i := 0; i < len(olog.ev); i++ {
 		e := olog.ev[i]
-		if !e.set {
-			if e.v != last {
-				changes++
-				last = e.v
+		if e.set {
+			enforced = maxInt(1, e.v)
+			continue
+		}
+		if e.read {
+			continue
+		}
+		// a sample-driven update
+		if i >= preEv && e.v != last {
+			changes++
+			last = e.v
+		}
+		want := e.v
+		applied := false
+		k := i + 1
+		for ; k < len(olog.ev); k++ {
+			n := olog.ev[k]
+			if n.read {
+				want = n.v // the estimate the limiter actually read after the update
+				continue
 			}
-			if i+1 >= len(olog.ev) || !olog.ev[i+1].set {
-				if i+1 < len(olog.ev) {
-					r.Fail("update-not-followed-by-setlimit", kind, "a sample-driven update of the algorithm (estimate %d) was followed by another update before the strategy was told", e.v)
+			if n.set {
+				applied = true
+				if maxInt(1, n.v) != maxInt(1, want) {
+					r.Fail("setlimit-with-stale-value", kind, "after a sample-driven update the limiter read estimate %d but gave the strategy %d", want, n.v)
 					return
 				}
-				if !s.Truncated && s.Leftover() == 0 {
-					r.Fail("update-not-followed-by-setlimit", kind, "the last sample-driven update (estimate %d) was never forwarded to the strategy", e.v)
-					return
-				}
-			} else if olog.ev[i+1].v != e.v {
-				r.Fail("setlimit-with-stale-value", kind, "after an update to estimate %d the strategy was given %d", e.v, olog.ev[i+1].v)
+			}
+			break
+		}
+		if !applied {
+			complete := k < len(olog.ev) || (!s.Truncated && s.Leftover() == 0)
+			if complete && enforced != maxInt(1, want) {
+				r.Fail("update-not-enforced", kind, "a sample-driven update completed with estimate %d (floored %d) but the strategy still enforces %d and was not told before the next update", want, maxInt(1, want), enforced)
 				return
 			}
 		}
